@@ -223,15 +223,27 @@ def attr_str(v):
 
 
 def var_key(var):
-    path = var.attributes.get("path")       # `var.path` lives on the DummyData and is gone once data is set
+    # `var.path` lives on the DummyData and is gone once data is set: then the attribute is all there is.  Before
+    # that the DummyData is asked, because a root variable may *declare* an attribute named path (C11)
+    data = getattr(var, "data", None)
+    path = data.path if hasattr(data, "path") else var.attributes.get("path")
     return (path + "/" + var.name) if path is not None else var.name
 
 
-def rec_str(var):
+def own_keys(var):
+    """the entries pydap itself keeps in the attributes dict of a variable parsed from a DMR (no data decoded yet):
+    `Maps` (createVariable always sets it) and, for a member of a group, `path`"""
+    return ("Maps",) + (("path",) if var.path is not None else ())
+
+
+def rec_str(var, hidden=None):
+    """`hidden`: keys of var.attributes that are not reported as attributes (default HIDDEN; C11 passes
+    own_keys(var): exactly pydap's own entries, so that a *declared* attribute named path/checksum is seen)"""
+    hidden = HIDDEN if hidden is None else hidden
     path = "none" if var.path is None else hexs(var.path)
     dt = np.dtype(var.dtype)
     maps = var.attributes.get("Maps", ())
-    attrs = " ".join("(%s %s)" % (hexs(k), attr_str(v)) for k, v in var.attributes.items() if k not in HIDDEN)
+    attrs = " ".join("(%s %s)" % (hexs(k), attr_str(v)) for k, v in var.attributes.items() if k not in hidden)
     return "(%s %s %s %s (%s) (%s) (%s) (%s))" % (
         hexs(var_key(var)), hexs(var.name), path, dt.kind + str(dt.itemsize),
         " ".join(hexs(d) for d in var.dims), " ".join(str(int(n)) for n in var.shape),
